@@ -94,6 +94,11 @@ def congruent(F, pname, arm):
                 return False
         elif ty == "std::vec::Vec<parser::Expression>":
             sv = peel(fe)
+            if sv.get("k") == "Var" and sv["id"] in lets and peel(lets[sv["id"]]).get("collected"):
+                sv = peel(lets[sv["id"]])
+            if sv.get("k") == "Block" and sv.get("collected"):
+                # `children.into_iter().map(|x| P(x)).collect()` normalised to a loop that pushes in order
+                sv = peel(sv["expr"])
             if sv.get("k") != "Var":
                 return False
             # filled only by push(scratch, P(x)) inside `for x in <sub>`
@@ -102,7 +107,10 @@ def congruent(F, pname, arm):
                 return False
             n, path = pushes[0]
             loops = [x for x in path if x.get("k") == "For"]
-            if len(loops) != 1 or q.var_id(loops[0]["iter"]) != sub["id"]:
+            it = peel(loops[0]["iter"]) if len(loops) == 1 else {}
+            if call_is(it, "IntoIterator::into_iter"):
+                it = peel(it["args"][0])
+            if len(loops) != 1 or q.var_id(it) != sub["id"]:
                 return False
             xv = loops[0]["pat"].get("id")
             a = peel(n["args"][1])
